@@ -164,6 +164,16 @@ class Ctx:
     def witness(self, name: str) -> None:
         self.witnesses.add(name)
 
+    def small_model(self, extra):
+        """A model of path && extra preferring small magnitudes for the declared integers (readable replays)."""
+        ints = [t for t in self.vars.values() if z3.is_int(t)]
+        for bound in (3, 8, 32, 256):
+            r = self.check(extra, *[z3.And(t >= -bound, t <= bound) for t in ints])
+            if r == z3.sat:
+                return self.solver.model()
+        self.check(extra)
+        return self.solver.model()
+
     def model_values(self, model) -> dict:
         out = {}
         for k, t in self.vars.items():
@@ -231,9 +241,10 @@ def explore(
                 ok = True
             except Exception as e:  # undeclared exception escaping real code: violation on this path
                 r = ctx.check()
-                _acc(stats, ctx)
                 if r == z3.sat:
-                    return Result("CEX", stats, ctx.model_values(ctx.solver.model()),
+                    m = ctx.small_model(z3.BoolVal(True))
+                    _acc(stats, ctx)
+                    return Result("CEX", stats, ctx.model_values(m),
                                   cex_kind=f"exception {type(e).__name__}: {e}\n{traceback.format_exc(limit=8)}",
                                   samples=samples, witnesses=witnesses)
                 raise
@@ -247,8 +258,9 @@ def explore(
                 ok = z3.BoolVal(ok)
             r = ctx.check(z3.Not(ok))
             if r == z3.sat:
+                m = ctx.small_model(z3.Not(ok))
                 _acc(stats, ctx)
-                return Result("CEX", stats, ctx.model_values(ctx.solver.model()), cex_kind="assertion",
+                return Result("CEX", stats, ctx.model_values(m), cex_kind="assertion",
                               samples=samples, witnesses=witnesses)
             if len(samples) < n_samples and ctx.check() == z3.sat:
                 samples.append({"decisions": len(ctx.trail), "model": ctx.model_values(ctx.solver.model())})
